@@ -1,0 +1,120 @@
+// Copyright (C) 2022, Alex Badics
+// This file is part of peginator
+// Licensed under the MIT license. See LICENSE file in the project root for details.
+
+//! Checks that have to hold before any code is generated: every name that ends up
+//! as a Rust identifier is one.
+
+use anyhow::{bail, Result};
+
+use crate::{
+    grammar::{
+        Choice, DelimitedExpression, Field_name, Grammar, Grammar_rules, NamespacedRustName,
+    },
+    CodegenSettings,
+};
+
+/// Path-only keywords: fine inside `@check(...)` / `@extern(...)` paths, but not as names
+const PATH_KEYWORDS: [&str; 4] = ["self", "Self", "super", "crate"];
+
+fn is_identifier(name: &str) -> bool {
+    let mut chars = name.chars();
+    match chars.next() {
+        Some(c) if c.is_ascii_alphabetic() || c == '_' => (),
+        _ => return false,
+    }
+    chars.all(|c| c.is_ascii_alphanumeric() || c == '_') && name != "_"
+}
+
+fn check_name(name: &str, what: &str) -> Result<()> {
+    if !is_identifier(name) || PATH_KEYWORDS.contains(&name) {
+        bail!("{what} '{name}' cannot be used as a Rust identifier");
+    }
+    Ok(())
+}
+
+fn check_path(path: &NamespacedRustName, what: &str) -> Result<()> {
+    for part in path {
+        if !is_identifier(part) {
+            bail!(
+                "{what} '{}' is not a Rust path of identifiers (problematic part: '{part}')",
+                path.join("::")
+            );
+        }
+    }
+    Ok(())
+}
+
+fn check_choice(choice: &Choice, includes: &mut Vec<String>) -> Result<()> {
+    for sequence in &choice.choices {
+        for part in &sequence.parts {
+            check_expression(part, includes)?;
+        }
+    }
+    Ok(())
+}
+
+fn check_expression(expr: &DelimitedExpression, includes: &mut Vec<String>) -> Result<()> {
+    match expr {
+        DelimitedExpression::Group(e) => check_choice(&e.body, includes),
+        DelimitedExpression::Optional(e) => check_choice(&e.body, includes),
+        DelimitedExpression::Closure(e) => check_choice(&e.body, includes),
+        DelimitedExpression::NegativeLookahead(e) => check_expression(&e.expr, includes),
+        DelimitedExpression::PositiveLookahead(e) => check_expression(&e.expr, includes),
+        DelimitedExpression::Field(f) => {
+            if let Some(Field_name::Identifier(name)) = &f.name {
+                check_name(name, "Field name")?;
+            }
+            check_name(&f.typ, "Rule name")
+        }
+        DelimitedExpression::IncludeRule(i) => {
+            includes.push(i.rule.clone());
+            Ok(())
+        }
+        DelimitedExpression::CharacterRange(_)
+        | DelimitedExpression::StringLiteral(_)
+        | DelimitedExpression::EndOfInput(_) => Ok(()),
+    }
+}
+
+pub fn validate_grammar(grammar: &Grammar, settings: &CodegenSettings) -> Result<()> {
+    for derive in &settings.derives {
+        if !is_identifier(derive) {
+            bail!("Derive '{derive}' is not a Rust identifier");
+        }
+    }
+    for rule_entry in &grammar.rules {
+        match rule_entry {
+            Grammar_rules::Rule(rule) => {
+                check_name(&rule.name, "Rule name")?;
+                for directive in &rule.directives {
+                    if let crate::grammar::DirectiveExpression::CheckDirective(c) = directive {
+                        check_path(&c.function, "Check function")?;
+                    }
+                }
+                let mut includes = Vec::new();
+                check_choice(&rule.definition, &mut includes)?;
+            }
+            Grammar_rules::CharRule(rule) => {
+                check_name(&rule.name, "Rule name")?;
+                for directive in &rule.directives {
+                    check_path(&directive.function, "Check function")?;
+                }
+                for part in &rule.choices {
+                    if let crate::grammar::CharRulePart::Identifier(name) = part {
+                        check_name(name, "Rule name")?;
+                    }
+                }
+            }
+            Grammar_rules::ExternRule(rule) => {
+                check_name(&rule.name, "Rule name")?;
+                check_path(&rule.directive.function, "Extern function")?;
+                if let Some(return_type) = &rule.directive.return_type {
+                    check_path(return_type, "Extern return type")?;
+                }
+            }
+        }
+    }
+
+    Ok(())
+}
